@@ -581,6 +581,19 @@ impl CaseInput for ErrCase {
                 }
             }
         }
+        // whatever the response type itself reads as an error response, the HTTP path of a non-200 reply delivers — the same
+        // code, description and URI (the request path adds the status / Content-Type decision, it does not re-judge the body)
+        match (&direct, &http) {
+            (Seen::Ok { as_ref: a1, desc: d1, uri: u1, .. }, Seen::Ok { as_ref: a2, desc: d2, uri: u2, .. }) => {
+                if (a1, d1, u1) != (a2, d2, u2) {
+                    oracle.push(("C14:http-differs-from-direct".into(), format!("direct ({a1:?}, {d1:?}, {u1:?}) vs over HTTP ({a2:?}, {d2:?}, {u2:?}) for {text:?}")));
+                }
+            }
+            (Seen::Ok { as_ref, .. }, Seen::Err) => {
+                oracle.push(("C14:http-differs-from-direct".into(), format!("the response type reads code {as_ref:?} from {text:?}, the request path (status {}) does not deliver it as a server response", self.status)));
+            }
+            _ => {}
+        }
         let line = format!("err {} {} | {} {}", self.family, hex(&body), show(&http), show(&direct));
         Exec { line, oracle, class: format!("f{}-k{}-{}", self.family, self.kind, self.class) }
     }
